@@ -25,7 +25,7 @@ Open Scope N_scope.
    nothing — the loop dispatches exactly fs, in order, and then continues exactly at the first
    byte after them, in the state fs left behind.  For EVERY limit, handler configuration,
    awaiting state, registration pattern and handler behaviour (read k of n for all k, none,
-   all, more than there is, panic). *)
+   all, more than there is, panic with any value: string, error, runtime.Error, other). *)
 Theorem C04_stream_alignment :
   forall (maxbuf : N) (cfg : config) (fs : list frame) (st : state)
          (env : nat -> env_step) (rest : list byte),
@@ -109,7 +109,7 @@ Example C04_example :
   let cfg := mkConfig (fun t => t =? 62) true (fun t => (t =? 62) || (t =? 61) || (t =? 63)) in
   let env := fun j => match j with
                       | O => mkEnv [7] (HRead 2)
-                      | S O => mkEnv [] (HPanic 1)
+                      | S O => mkEnv [] (HPanic 1 PvRuntimeError)
                       | _ => mkEnv [] (HRead 100) end in
   let fs := [mkFrame 0 1 12 7 [1;2;3;4;5]; mkFrame 5 2 62 9 [6;7;8]; mkFrame 0 1 63 7 [9]] in
   serve 4 cfg st0 env (concat (map frame_bytes fs) ++ [4; 63; 0])
